@@ -204,13 +204,15 @@ def main():
 
     from translate_closures import closure_tables
     closures_v = closure_tables(t_comp, t_auto)
+    from translate_status import status_tables
+    status_v = status_tables(t_scipy, parse("solvers/lp_solver.py"), t_comp, t_auto)
 
     lines = []
     w = lines.append
     w("(* GENERATED by tools/translate.py from the optyx source - do not edit.")
     w("   Regenerated on every check run; the obligations at the end are re-proved each time. *)")
     w("From Coq Require Import String List QArith ZArith Bool.")
-    w("From Optyx Require Import Syntax ArrTerm.")
+    w("From Optyx Require Import Syntax ArrTerm SolveWrap.")
     w("Import ListNotations.")
     w("Open Scope string_scope.")
     w("")
@@ -230,6 +232,7 @@ def main():
     w(f"Definition gen_vunarysum_ops : list (string * uop) := {den_un(vus_ops, 'VectorUnarySum._NUMPY_FUNCS')}.")
     w("")
     w(closures_v)
+    w(status_v)
     text = "\n".join(lines) + "\n"
     os.makedirs(os.path.dirname(OUT), exist_ok=True)
     old = open(OUT).read() if os.path.exists(OUT) else None
